@@ -445,6 +445,8 @@ def run(rep):
     from pgv.replayers import c13 as R
     for res in R.real_mixtures(rep.seed, thorough=rep.tier == 'thorough'):
         rep.add_bounded(f"{P}/bounded.real_mixture/{res['name']}", res['ok'], res['detail'], replay={'kind': 'c13.real', 'name': res['name'], 'seed': rep.seed})
+    for res in R.point_mixture_cases():
+        rep.add_bounded(f"{P}/bounded.{res['name']}", res['ok'], res['detail'], replay={'kind': 'c13.point'})
     for res in R.helper_cases():
         rep.add_bounded(f"{P}/bounded.{res['name']}", res['ok'], res['detail'], replay={'kind': 'c13.helper', 'name': res['name']})
     rep.notes.append('n = 2, 3, 4 components (the whole quantified range); values symbolic')
